@@ -104,7 +104,9 @@ def check(pid, tier):
         futs = {ex.submit(build, j): p for p, j in uniq.items()}
         for f in cf.as_completed(futs):
             built[futs[f]] = f.result()
-    replay_dir = os.path.join(HERE, "replays", pid)
+    alt = os.path.realpath(REPO) != "/repo"   # scratch-copy runs (mutant demonstrations) never touch the registered evidence
+    out_root = os.path.join(BUILD, "alt_out") if alt else HERE
+    replay_dir = os.path.join(out_root, "replays", pid)
     os.makedirs(replay_dir, exist_ok=True)
     for p, (binp, errtxt) in built.items():
         if binp is None:
@@ -195,8 +197,8 @@ def check(pid, tier):
     cov["build_s"] = round(t_build, 1)
     cov["jobs"] = len(jobs)
     ev = dict(property_id=pid, tier=tier, seed=seed, level=level, coverage=cov, assumptions=spec.get("assumptions", []), wall_s=round(time.time() - t0, 2), violations=len(new))
-    os.makedirs(os.path.join(HERE, "evidence"), exist_ok=True)
-    with open(os.path.join(HERE, "evidence", pid + ".json"), "w") as fh:
+    os.makedirs(os.path.join(out_root, "evidence"), exist_ok=True)
+    with open(os.path.join(out_root, "evidence", pid + ".json"), "w") as fh:
         json.dump(ev, fh, indent=1)
     # ---- report
     print("check %s tier=%s jobs=%d build=%.0fs wall=%.0fs states=%s transitions=%s evaluations=%s exhaustive=%s" % (
